@@ -22,35 +22,56 @@ def IsRowOp (vals : List (Option CifValue)) (op : RawMOp) : Prop :=
     ChainOf vals chain ∧ NumberOf vals num ∧ (colText ((vals[14]?).join)).val = some resName ∧
     op.1 = String.ofList chain ∧ op.2.1.1 = num ∧
     op.2.1.2 = (colText ((vals[17]?).join)).val.map String.ofList ∧
-    op.2.2.1.1 = String.ofList resName ∧ op.2.2.1.2 = (colText ((vals[0]?).join)).val.map String.ofList
+    op.2.2.1.1 = String.ofList resName ∧ op.2.2.1.2 = (colText ((vals[0]?).join)).val.map String.ofList ∧
+    -- the atom is the one `Atom::new` builds from the row's cells, with the tensor cells attached when all are there
+    ∃ (name id : List Char) (x y z : Flt) (a0 : Atom) (ex het : Bool) (cnt : Nat),
+      (colText ((vals[19]?).join)).val = some name ∧ (colText ((vals[16]?).join)).val = some id ∧
+      (colF64 ((vals[24]?).join)).val = some x ∧ (colF64 ((vals[25]?).join)).val = some y ∧
+      (colF64 ((vals[26]?).join)).val = some z ∧
+      atomNew het cnt id name x y z ((colF64 ((vals[20]?).join)).val.getD (fltInt 1))
+        ((colF64 ((vals[12]?).join)).val.getD (fltInt 1)) ((colText ((vals[23]?).join)).val.getD [])
+        ((colIsize ((vals[13]?).join)).val.getD 0) = some (a0, ex) ∧
+      (op.2.2.2 = a0 ∨ ∃ t, op.2.2.2 = { a0 with atf := some t })
 
 theorem placeAtom_models (s : AState) (mn : Nat) (at_ el : List Char) (c : RowCells) (o : RowOpt) :
     RowModels (fun op => op.1 = String.ofList c.chain ∧ op.2.1.1 = c.resNum ∧ op.2.1.2 = o.ins.map String.ofList ∧
-        op.2.2.1.1 = String.ofList c.resName ∧ op.2.2.1.2 = o.alt.map String.ofList)
+        op.2.2.1.1 = String.ofList c.resName ∧ op.2.2.1.2 = o.alt.map String.ofList ∧
+        ∃ (a0 : Atom) (ex het : Bool) (cnt : Nat),
+          atomNew het cnt c.id c.name c.x c.y c.z o.occ o.b el o.charge = some (a0, ex) ∧
+          (op.2.2.2 = a0 ∨ ∃ t, op.2.2.2 = { a0 with atf := some t }))
       mn s.models (placeAtom s mn at_ el c o).models := by
   unfold placeAtom
   simp only
   split
   · exact Or.inr (Or.inl rfl)
-  · exact Or.inr (Or.inr ⟨_, ⟨rfl, rfl, rfl, rfl, rfl⟩, rfl⟩)
+  · next atom0 ex hnew =>
+    refine Or.inr (Or.inr ⟨_, ⟨rfl, rfl, rfl, rfl, rfl, atom0, ex, _, _, hnew, ?_⟩, rfl⟩)
+    rcases withTensor_cases atom0 o.aniso with h | ⟨t, h⟩
+    · exact Or.inl h
+    · exact Or.inr ⟨t, h⟩
 
 theorem placeRow_models (s : AState) (vals : List (Option CifValue)) (mn : Nat) (at_ el : List Char) (c : RowCells) :
     RowModels (fun op => op.1 = String.ofList c.chain ∧ op.2.1.1 = c.resNum ∧
         op.2.1.2 = (colText ((vals[17]?).join)).val.map String.ofList ∧
-        op.2.2.1.1 = String.ofList c.resName ∧ op.2.2.1.2 = (colText ((vals[0]?).join)).val.map String.ofList)
+        op.2.2.1.1 = String.ofList c.resName ∧ op.2.2.1.2 = (colText ((vals[0]?).join)).val.map String.ofList ∧
+        ∃ (a0 : Atom) (ex het : Bool) (cnt : Nat),
+          atomNew het cnt c.id c.name c.x c.y c.z ((colF64 ((vals[20]?).join)).val.getD (fltInt 1))
+            ((colF64 ((vals[12]?).join)).val.getD (fltInt 1)) el ((colIsize ((vals[13]?).join)).val.getD 0) = some (a0, ex) ∧
+          (op.2.2.2 = a0 ∨ ∃ t, op.2.2.2 = { a0 with atf := some t }))
       mn s.models (placeRow s vals mn at_ el c).models := by
   unfold placeRow
   have hm := rowOptional_models s vals
   obtain ⟨halt, hins⟩ := rowOptional_ids s vals
+  obtain ⟨hocc, hb, hch⟩ := rowOptional_values s vals
   rcases hro : rowOptional s vals with ⟨o, s'⟩
-  rw [hro] at hm halt hins
-  simp only at hm halt hins ⊢
+  rw [hro] at hm halt hins hocc hb hch
+  simp only at hm halt hins hocc hb hch ⊢
   generalize ((prepareIdentifier c.chain).isNone || (prepareIdentifierUpper c.resName).isNone ||
       (match o.ins with | some ic => (prepareIdentifierUpper ic).isNone | none => false)) = bad
   cases bad
   · simp only [Bool.false_eq_true, if_false]
     have := placeAtom_models s' mn at_ el c o
-    rw [hm, halt, hins] at this
+    rw [hm, halt, hins, hocc, hb, hch] at this
     exact this
   · simp only [if_true]
     exact Or.inl hm
@@ -87,10 +108,12 @@ theorem C02_row_models (olf : Bool) (s : AState) (vals : List (Option CifValue))
       rw [hm, h2] at this
       obtain ⟨hchain, hnum⟩ := rowCells_ids s2 s3 vals c hrc
       have hcells := rowCells_some s2 s3 vals c hrc
-      rcases this with h | h | ⟨op, ⟨p1, p2, p3, p4, p5⟩, h⟩
+      rcases this with h | h | ⟨op, ⟨p1, p2, p3, p4, p5, a0, ex, het, cnt, hnew, hat⟩, h⟩
       · exact Or.inl h
       · exact Or.inr (Or.inl h)
-      · exact Or.inr (Or.inr ⟨op, ⟨c.chain, c.resName, c.resNum, hchain, hnum, hcells.2.2.1, p1, p2, p3, p4, p5⟩, h⟩)
+      · exact Or.inr (Or.inr ⟨op, ⟨c.chain, c.resName, c.resNum, hchain, hnum, hcells.2.2.1, p1, p2, p3, p4, p5,
+          c.name, c.id, c.x, c.y, c.z, a0, ex, het, cnt, hcells.1, hcells.2.1, hcells.2.2.2.1, hcells.2.2.2.2.1,
+          hcells.2.2.2.2.2, hnew, hat⟩, h⟩)
   · simp only [if_true]
     exact Or.inl hgm
 
@@ -221,15 +244,112 @@ theorem C02_single_model_loop_is_grouped (o : ReadOpts) (n : Nat) (header : List
       simp only [Option.some.injEq] at this
       rw [this]
 
+/-! ### ... in row order, every row at most once -/
+
+/-- `ops` are operations of some of the `rows`, one per row at most, in row order -/
+inductive OpsOf (header : List (List Char)) : List (List CifValue) → List RawMOp → Prop
+  | nil : OpsOf header [] []
+  | skip (r : List CifValue) {rows : List (List CifValue)} {ops : List RawMOp} :
+      OpsOf header rows ops → OpsOf header (r :: rows) ops
+  | take (r : List CifValue) (op : RawMOp) {rows : List (List CifValue)} {ops : List RawMOp} :
+      IsRowOp (rowVals header r) op → OpsOf header rows ops → OpsOf header (r :: rows) (op :: ops)
+
+theorem opsOf_snoc_skip (header : List (List Char)) (rows : List (List CifValue)) (ops : List RawMOp) (r : List CifValue)
+    (h : OpsOf header rows ops) : OpsOf header (rows ++ [r]) ops := by
+  induction h with
+  | nil => exact .skip r .nil
+  | skip r' _ ih => exact .skip r' ih
+  | take r' op hop _ ih => exact .take r' op hop ih
+
+theorem opsOf_snoc_take (header : List (List Char)) (rows : List (List CifValue)) (ops : List RawMOp) (r : List CifValue)
+    (op : RawMOp) (hop : IsRowOp (rowVals header r) op) (h : OpsOf header rows ops) :
+    OpsOf header (rows ++ [r]) (ops ++ [op]) := by
+  induction h with
+  | nil => exact .take r op hop .nil
+  | skip r' _ ih => exact .skip r' ih
+  | take r' op' hop' _ ih => exact .take r' op' hop' ih
+
+/-- nothing yet, or the one model built by the operations of the rows read so far -/
+def BuiltBy (header : List (List Char)) (n : Nat) (done : List (List CifValue)) (ms : List Model) : Prop :=
+  ms = [] ∨ ∃ (ops : List RawMOp) (m : Model), ms = [m] ∧ m.serial = n ∧ OpsOf header done ops ∧
+    ops.foldlM Model.addAtom { serial := n, chains := [] } = some m
+
+theorem builtBy_step (header : List (List Char)) (n : Nat) (done : List (List CifValue)) (r : List CifValue)
+    (ms ms' : List Model) (hb : BuiltBy header n done ms) (hr : RowModels (IsRowOp (rowVals header r)) n ms ms') :
+    BuiltBy header n (done ++ [r]) ms' := by
+  have hrm : ∃ (ops : List RawMOp) (m : Model), rowModel ms n = ([m], 0) ∧ m.serial = n ∧ OpsOf header done ops ∧
+      ops.foldlM Model.addAtom { serial := n, chains := [] } = some m := by
+    rcases hb with rfl | ⟨ops, m, rfl, hs, hp, hf⟩
+    · refine ⟨[], _, rowModel_nil n, rfl, ?_, rfl⟩
+      -- no operation yet: every row read so far was skipped
+      clear hr
+      induction done with
+      | nil => exact .nil
+      | cons d ds ih => exact .skip d ih
+    · exact ⟨ops, m, rowModel_single m n hs, hs, hp, hf⟩
+  obtain ⟨ops, m, hrm, hs, hp, hf⟩ := hrm
+  rcases hr with rfl | rfl | ⟨op, hop, rfl⟩
+  · rcases hb with rfl | ⟨ops', m', rfl, hs', hp', hf'⟩
+    · exact Or.inl rfl
+    · exact Or.inr ⟨ops', m', rfl, hs', opsOf_snoc_skip header done ops' r hp', hf'⟩
+  · rw [hrm]; exact Or.inr ⟨ops, m, rfl, hs, opsOf_snoc_skip header done ops r hp, hf⟩
+  · rw [hrm]
+    simp only
+    rcases placeIn_single m op with h | ⟨m', hadd, h⟩
+    · rw [h]; exact Or.inr ⟨ops, m, rfl, hs, opsOf_snoc_skip header done ops r hp, hf⟩
+    · rw [h]
+      refine Or.inr ⟨ops ++ [op], m', rfl, ?_, opsOf_snoc_take header done ops r op hop hp, ?_⟩
+      · rw [addAtom_serial m m' op hadd, hs]
+      · rw [List.foldlM_append, hf]
+        simp only [List.foldlM_cons, List.foldlM_nil, bind, Option.bind, hadd, pure]
+
+theorem builtBy_rows (o : ReadOpts) (n : Nat) (header : List (List Char)) (done rows : List (List CifValue)) (s : AState)
+    (hn : ∀ row ∈ rows, rowNumber (rowVals header row) = n) (hb : BuiltBy header n done s.models) :
+    BuiltBy header n (done ++ rows)
+      (rows.foldl (fun (s : AState) (row : List CifValue) => atomRow o s (rowVals header row)) s).models := by
+  induction rows generalizing s done with
+  | nil => simpa using hb
+  | cons r rs ih =>
+    simp only [List.foldl_cons]
+    have := ih (done ++ [r]) (atomRow o s (rowVals header r)) (fun row hr => hn row (List.mem_cons_of_mem _ hr)) (by
+      unfold atomRow
+      split
+      · -- a discarded hydrogen row: skipped
+        rcases hb with h | ⟨ops, m, hm, hs, hp, hf⟩
+        · exact Or.inl h
+        · exact Or.inr ⟨ops, m, hm, hs, opsOf_snoc_skip header done ops r hp, hf⟩
+      · have hrow := C02_row_models o.onlyFirstModel s (rowVals header r)
+        rw [hn r (List.mem_cons_self ..)] at hrow
+        exact builtBy_step header n done r _ _ hb hrow)
+    simpa [List.append_assoc] using this
+
+/-- **the rows of a loop with one model number are grouped as they state, in row order**: the one model that comes
+out is the C08 grouping of a sequence of `Model::add_atom` operations that runs parallel to the rows — each operation is
+stated by its own row (`IsRowOp`: identifiers with the author's cells preferred, the atom built by `Atom::new` from the
+row's cells), no row states two, and their order is the order of the rows -/
+theorem C02_single_model_loop_in_row_order (o : ReadOpts) (n : Nat) (header : List (List Char))
+    (rows : List (List CifValue)) (hn : ∀ row ∈ rows, rowNumber (rowVals header row) = n) :
+    (parseAtoms o [] header rows).1 = [] ∨
+    ∃ (ops : List RawMOp) (nops : List MOp), OpsOf header rows ops ∧ ops.mapM normMOp = some nops ∧
+      (parseAtoms o [] header rows).1 = [{ serial := n, chains := specChains nops }] := by
+  unfold parseAtoms
+  split
+  · exact Or.inl rfl
+  · simp only
+    rcases builtBy_rows o n header [] rows { models := [] } hn (Or.inl rfl) with h | ⟨ops, m, hm, _, hp, hf⟩
+    · exact Or.inl h
+    · obtain ⟨nops, hnops⟩ := foldlM_addAtom_norm ops _ m hf
+      refine Or.inr ⟨ops, nops, by simpa using hp, hnops, ?_⟩
+      rw [hm]
+      have := C08_group_spec_model ops nops n hnops
+      rw [hf] at this
+      simp only [Option.some.injEq] at this
+      rw [this]
+
 /-- non-vacuity: the example row of `C02Atom` states model 1 and the operation (chain A, residue 1, ALA, no alternate
-location) through its label cells, having no author cells -/
+location) through its label cells, having no author cells; that it is placed is the example of `C02Atom` -/
 example : rowNumber exampleRow = 1 := by decide +kernel
-example : IsRowOp exampleRow ("A", ((1, none), (("ALA", none), default))) := by
-  refine ⟨['A'], ['A', 'L', 'A'], 1, ?_, ?_, ?_, rfl, rfl, ?_, rfl, ?_⟩
-  · exact Or.inr ⟨by decide +kernel, by decide +kernel⟩
-  · exact Or.inr ⟨by decide +kernel, 0, by decide +kernel⟩
-  · decide +kernel
-  · decide +kernel
-  · decide +kernel
+example : ChainOf exampleRow ['A'] ∧ NumberOf exampleRow 1 :=
+  ⟨Or.inr ⟨by decide +kernel, by decide +kernel⟩, Or.inr ⟨by decide +kernel, 0, by decide +kernel⟩⟩
 
 end PdbModel
